@@ -130,13 +130,17 @@ func genConcPlan(prop string, seed uint64, thorough bool) *Plan {
 		tk[t] = append(tk[t], k)
 	}
 	nc := 2 + g.r.IntN(3)
+	if (prop == "C08" && seed%6 == 5) || prop == "C14" {
+		nc = 3 + g.r.IntN(2)
+	}
 	maxOps := 10
 	if thorough {
 		maxOps = 12
 	}
 	// class twodb: the connections work in two databases, with flushes of
 	// everything (all database locks at once) in between
-	twodb := prop == "C08" && seed%6 == 5
+	twodb := (prop == "C08" && seed%6 == 5) || prop == "C14"
+	otherDb := 1 + g.r.IntN(15)
 	if twodb {
 		p.Class = "twodb"
 	}
@@ -164,8 +168,10 @@ func genConcPlan(prop string, seed uint64, thorough bool) *Plan {
 		g.client = c + 1
 		items := []Item{{Op: "barrier", N: 1}}
 		n := 3 + g.r.IntN(maxOps-2)
-		if twodb && c%2 == 1 {
-			items = append(items, cmdItem("SELECT", "1"))
+		if twodb && (c%2 == 1 || g.chance(3)) {
+			// several connections select the same, not yet existing database at
+			// the same time (it is created by the first SELECT that names it)
+			items = append(items, cmdItem("SELECT", strconv.Itoa(otherDb)))
 		}
 		// a connection that has owned the database exclusively before (EXEC,
 		// CLIENT INFO/LIST) must be locked out like any other afterwards
@@ -200,7 +206,7 @@ func genConcPlan(prop string, seed uint64, thorough bool) *Plan {
 	}
 	p.Clients[0].Items = append(p.Clients[0].Items, Item{Op: "barrier", N: 2})
 	if twodb {
-		p.Clients = append(p.Clients, observation(g.keys, 2, 0, 1))
+		p.Clients = append(p.Clients, observation(g.keys, 2, 0, otherDb))
 	} else {
 		p.Clients = append(p.Clients, observation(g.keys, 2))
 	}
